@@ -6,6 +6,8 @@ LEVEL = ("bounded symbolic execution of the real code over exact reals; every ob
          "(in)equalities decided by z3 (QF_LRA monomial abstraction of QF_NRA with solver-checked lemma selection); "
          "counterexample candidates are replayed on the unpatched float code before VIOLATION is printed")
 CLAIMED = {
+ "C01": ("decomposed matrix == independent oracle; components orthonormal; scores orthogonal with norms s; explained variance == s^2/(n-1), descending, eigen-relation with the oracle covariance, total variance and ratios; residual orthogonal to retained modes - for ALL data values (EOF, ComplexEOF, HilbertEOF without padding, ExtendedEOF)", "5 C01"),
+ "C02": ("container type, names, dims, label sets preserved and value at every label equal to the input symbol through the 2-D round trip and model accessors, over an enumerated layout space", "5 C02"),
  "C03": ("inverse_transform(scores()) == X at every label with all modes kept; transform(inverse_transform(S)) == S for an arbitrary symbolic S; normalized switches differ exactly by the norms - for ALL data/weight values within the shape bound", "5 C03"),
  "C04": ("transform(X_fit) == scores() for ALL data values, for every listed model class / alpha / power / layout within the shape bound", "5 C04"),
  "C05": ("transform of new data keeps the new labels, has no NaN, commutes with concatenation along samples and restricts to row subsets of the training scores - for ALL values", "5 C05"),
